@@ -2,6 +2,8 @@
 
 package jxpath
 
+import "math"
+
 // ---------------------------------------------------------------------------------------------
 // C18 — $formatNumber: picture grammar, termination, rendering structure (package jxpath).
 // ---------------------------------------------------------------------------------------------
@@ -276,4 +278,122 @@ func VerifH_C18_Grouping() {
 	if p.frac == 0 || (len(fp) == 0) {
 		verifAssert(dot < 0 || len(fp) > 0, "no-dangling-decimal-separator")
 	}
+}
+
+// VerifH_C18_PictureRound: the rounding kernel of $formatNumber at fraction digit 0 is half-to-even
+// for every double below 2^52 in magnitude (the decimal scaling step is the identity there), and at
+// 1 and 2 fraction digits on exact binary ties of either sign.
+func VerifH_C18_PictureRound() {
+	if verifChoose(2) == 0 {
+		x := verifFloat()
+		verifAssume(!math.IsNaN(x) && math.Abs(x) < 4503599627370496.0)
+		got := round(x, 0)
+		want := math.RoundToEven(x)
+		verifAssert(got == want, "picture-round-half-even")
+		verifAssert(!(got == 0 && math.Signbit(got)), "picture-round-no-negative-zero")
+		return
+	}
+	type tc struct {
+		x    float64
+		prec int
+		want float64
+	}
+	cases := []tc{{0.125, 2, 0.12}, {0.375, 2, 0.38}, {-0.125, 2, -0.12}, {-0.375, 2, -0.38}, {2.5, 0, 2}, {-2.5, 0, -2}, {-3.5, 0, -4}, {0.25, 1, 0.2}, {0.75, 1, 0.8}, {-0.75, 1, -0.8}, {-0.25, 1, -0.2},
+		{1.5, 0, 2}, {-1.5, 0, -2}, {-0.5, 0, 0}, {0.5, 0, 0}}
+	c := cases[verifChoose(len(cases))]
+	verifAssert(round(c.x, c.prec) == c.want, "picture-round-decimal-ties")
+}
+
+// VerifH_C18_Separators: pictures whose integer part has 2..3 groups and whose fraction part has
+// 1..3 groups, every group of symbolic size 1..3 (regular and irregular grouping), on numbers with
+// 1..7 integer digits: formatting terminates, the digits are those of the ungrouped picture, and a
+// separator appears exactly at each picture position that has a digit on both sides.
+func VerifH_C18_Separators() {
+	ng := 2 + verifChoose(2)
+	sizes := make([]int, ng)
+	for i := range sizes {
+		sizes[i] = 1 + verifChoose(verifParam("G", 3))
+	}
+	mand := verifChoose(2) // 0: only the last digit mandatory; 1: the whole last group mandatory
+	pic, plain := "", ""
+	for i, sz := range sizes {
+		for k := 0; k < sz; k++ {
+			c := "#"
+			if i == ng-1 && (k == sz-1 || mand == 1) {
+				c = "0"
+			}
+			pic += c
+			plain += c
+		}
+		if i < ng-1 {
+			pic += ","
+		}
+	}
+	// positions from the right, in digits
+	var positions []int
+	acc := 0
+	for i := ng - 1; i > 0; i-- {
+		acc += sizes[i]
+		positions = append(positions, acc)
+	}
+	nf := verifChoose(4) // fraction groups (0: no fraction part)
+	var fpos []int
+	if nf > 0 {
+		pic += "."
+		plain += "."
+		acc = 0
+		for i := 0; i < nf; i++ {
+			sz := 1 + verifChoose(2)
+			for k := 0; k < sz; k++ {
+				pic += "0"
+				plain += "0"
+			}
+			acc += sz
+			if i < nf-1 {
+				pic += ","
+				fpos = append(fpos, acc)
+			}
+		}
+	}
+	vals := []float64{5, 12, 123, 1234, 12345, 123456, 1234567}
+	v := vals[verifChoose(len(vals))]
+	verifNote(pic)
+	got, err := FormatNumber(v, pic, NewDecimalFormat())
+	want, err2 := FormatNumber(v, plain, NewDecimalFormat())
+	verifAssert(err == nil && err2 == nil, "grouped-picture-renders")
+	if err != nil || err2 != nil {
+		return
+	}
+	ip, fp := want, ""
+	for k := 0; k < len(want); k++ {
+		if want[k] == '.' {
+			ip, fp = want[:k], want[k+1:]
+		}
+	}
+	exp := ""
+	for k := 0; k < len(ip); k++ {
+		fromRight := len(ip) - k
+		if k > 0 {
+			for _, p := range positions {
+				if p == fromRight {
+					exp += ","
+				}
+			}
+		}
+		exp += ip[k : k+1]
+	}
+	if nf > 0 {
+		exp += "."
+		for k := 0; k < len(fp); k++ {
+			if k > 0 {
+				for _, p := range fpos {
+					if p == k {
+						exp += ","
+					}
+				}
+			}
+			exp += fp[k : k+1]
+		}
+	}
+	verifAssert(got == exp, "separators-at-picture-positions")
 }
